@@ -108,6 +108,38 @@ let rec run_case (kind : string) (body : sexp list) : string * string =
         else sts in
       let connected = (match atom (List.nth body 1) with "never" | "dead" -> false | _ -> true) in
       (show_segs (run_finalize_segs_from connected sh sts), "UNSPECIFIED")
+  | "indep" ->
+      (* (indep FORM SRC (ops U...) (seq K)|(nested K)) *)
+      let rec lsrc_of (x : sexp) : lsrc =
+        (match head x with
+         | "of_fn" -> LOfFn (val_of (List.hd (args x)))
+         | "start" -> LStart (val_of (List.hd (args x)))
+         | "defer" -> LDefer (lsrc_of (List.hd (args x)))
+         | "create" -> LCreate (List.map ev_of (args x))
+         | "iter" -> LIter (narg (List.hd (args x)))
+         | h -> failwith ("bad lazy source " ^ h)) in
+      let src = lsrc_of (List.nth body 1) in
+      let os = OMap (fun v -> v) :: expand_all (List.map uop_of (args (List.nth body 2))) in
+      let pv = List.map (fun o -> (o, HFresh)) os in
+      let script = lscript src in
+      let mode = List.nth body 3 in
+      let k = int_of (List.hd (args mode)) in
+      let nexts l = List.length (List.filter (function Next _ -> true | _ -> false) l) in
+      let traces = (match head mode with
+          | "seq" -> sub_runs [] pv script (nat_of_int k)
+          | "nested" ->
+              let (outer, inner) = nested_run [] pv script (nat_of_int 1) in
+              if nexts outer >= k then [outer; inner] else [outer; []]
+          | h -> failwith ("bad mode " ^ h)) in
+      let subs = (match head mode with "seq" -> k | _ -> if nexts (List.hd traces) >= k then 2 else 1) in
+      let pulls = (if is_iter src then
+                     (let items = List.filter_map (function Next v -> Some v | _ -> None) script in
+                      int_of_nat (fst (run_iter_case None os [] items)))
+                   else 0) in
+      let src_calls = int_of_nat (calls_after (nat_of_int (int_of_nat (factory_calls src) + pulls)) (nat_of_int subs)) in
+      let map_calls = int_of_nat (calls_after (nat_of_int (if is_iter src then pulls else nexts script)) (nat_of_int subs)) in
+      let r = Printf.sprintf "built=0%s | src=%d map=%d" (String.concat "" (List.map (fun t -> " | " ^ show_trace t) traces)) src_calls map_calls in
+      (r, r)
   | "tree" ->
       (* (tree FORM PIPE (stims (I EV)...) [idiom]) *)
       let p = pipe_of (List.nth body 1) in
